@@ -36,7 +36,7 @@ def student_root():
 
 def check(ctx, src, pattern, kind, must_be_empty=False):
     from pedal.cait.cait_api import find_matches
-    case = {'src': src if len(src) < 3500 else src[:3500], 'pattern': pattern, 'perturbation': kind}
+    case = {'src': src if len(src) < 3500 else src[:3500], 'pattern': pattern, 'perturbation': kind, 'presented': cc.PRESENTED['how']}
     try:
         ast.parse(pattern)
     except SyntaxError:
@@ -296,7 +296,7 @@ def sub_queries(ctx, rng, src, pattern, matches):
                 ast.parse(sub_pattern)
             except Exception:
                 continue
-            case = {'src': src[:3500], 'pattern': pattern, 'perturbation': 'sub-query', 'sub_pattern': sub_pattern, 'placeholder': ph}
+            case = {'src': src[:3500], 'pattern': pattern, 'perturbation': 'sub-query', 'sub_pattern': sub_pattern, 'placeholder': ph, 'presented': cc.PRESENTED['how']}
             try:
                 subs = m[ph].find_matches(sub_pattern)        # the documented idiom: the earlier match's bindings carry over
             except Exception as e:
@@ -344,7 +344,7 @@ def sub_queries(ctx, rng, src, pattern, matches):
                 e = m.exp_table.get(ph)
                 if e is None or getattr(e, 'astNode', None) is not node:
                     continue        # only outer matches that bind the placeholder to the very same student node
-                case = {'src': src[:3500], 'pattern': pattern, 'perturbation': 'sub-query', 'sub_pattern': sub_pattern, 'placeholder': ph}
+                case = {'src': src[:3500], 'pattern': pattern, 'perturbation': 'sub-query', 'sub_pattern': sub_pattern, 'placeholder': ph, 'presented': cc.PRESENTED['how']}
                 try:
                     subs = m[ph].find_matches(sub_pattern)
                 except Exception as ex:
@@ -391,8 +391,8 @@ def run_program(ctx, rng, src, origin, foreign_patterns):
         tree = ast.parse(src)
     except (SyntaxError, ValueError):
         return
-    clear_report()
-    contextualize_report(src)
+    src = cc.present(ctx, src)
+    tree = ast.parse(src)
     idents, consts = program_tokens(tree)
     for _ in range(5):
         d = cc.derive(rng, tree)
@@ -523,8 +523,7 @@ def replay(ctx, case):
     from pedal.core.commands import clear_report, contextualize_report
     import sys
     sys.setrecursionlimit(20000)
-    clear_report()
-    contextualize_report(case['src'])
+    cc.present(ctx, case['src'], case.get('presented', 'plain'))
     kind = case.get('perturbation', 'derived')
     check(ctx, case['src'], case['pattern'], kind,
           must_be_empty=kind in ('absent-identifier', 'absent-literal', 'literal-of-other-type', 'literal-look-alike-of-other-kind', 'foreign-pattern-with-absent-content'))
